@@ -563,6 +563,20 @@ func (s *Scenario) buildWorld(W string, src []byte, image []byte) (*worldPaths, 
 		wp.LstArg = filepath.Join(W, "out", "list.lst")
 	case "parent_missing":
 		wp.LstArg = filepath.Join(W, "nolist", "list.lst")
+	case "is_dir":
+		wp.LstArg = filepath.Join(W, "out", "listdir")
+		must(os.Mkdir(wp.LstArg, 0777))
+	case "dev_full":
+		wp.LstArg = "/dev/full"
+	case "symlink_to_dst":
+		wp.LstArg = filepath.Join(W, "out", "list_link")
+		must(os.Symlink(wp.DstAbs, wp.LstArg))
+	case "symlink_to_src":
+		wp.LstArg = filepath.Join(W, "out", "list_link")
+		must(os.Symlink(wp.SrcAbs, wp.LstArg))
+	case "ro_existing": // an existing listing the user may not write (as uid 65534)
+		wp.LstArg = filepath.Join(W, "out", "list.lst")
+		must(os.WriteFile(wp.LstArg, []byte("old listing, rather longer than anything a tiny program would produce\n"), 0444))
 	case "same_as_src": // the list path names the source: must neither be read as a listing target nor destroy the image
 		wp.LstArg = wp.SrcArg
 	case "same_as_dst": // the list path names the output itself: still a creatable path
